@@ -341,16 +341,27 @@ PROPS["C06"] = {
     "streams": ["ir"],
     "rule": _IR_RULE + "; (pred cfgcheck) the REAL IR of every accepted program is run through the Lean CFG certificate "
             "checker whose soundness is proved; (model) the real IR equals the Lean model's IR exactly (blocks, statements, "
-            "operands, local types, terminators, static deps, observers, constant evaluation, diagnostics)",
-    "trusted_base": ["harness/src/irser.rs serialises the real IR (public qmluic::tir types) — a wrong serialiser would hide a defect",
+            "operands, local types, terminators, static deps, observers, constant evaluation, diagnostics); (pred cfgcheck-cxx) "
+            "every second program also goes through the WHOLE pipeline — as a top-level binding, as a sub-binding of a grouped "
+            "(gadget) property (font.pointSize/weight/bold/italic/kerning/family, sizePolicy.horizontalStretch) of the "
+            "QWidget-derived VBase, or as a callback — and every goto-structured function body found in the REAL support header is "
+            "re-read from its C++ text (harness/src/cxxcfg.rs: labels, gotos, if/else gotos, returns, Q_UNREACHABLE, definitions "
+            "and uses of the aN temporaries) and must pass Cfg.checkFn, which adds 'a value-returning function has no reachable "
+            "bare return'; a sixth of these block bodies have their tail cut off so that a path may end without a value: the "
+            "translator must refuse them",
+    "trusted_base": ["harness/src/cxxcfg.rs re-reads the emitted C++ (an unreadable body is a failure, never skipped)",
+                     "harness/src/irser.rs serialises the real IR (public qmluic::tir types) — a wrong serialiser would hide a defect",
                      "QV.Gen.VerifEnv is dumped from the real type map on every run",
                      "the untrusted certificate producers computeReach/computeIns only matter for completeness (a bad certificate "
                      "makes the check fail, never pass wrongly: checkCfg_sound)"],
-    "assumptions": ["the C++ emitted from the IR follows the IR's control flow (labels/gotos): C16/C01 tie"],
+    "assumptions": ["variables the USER declared without initialiser (`let v: T;`) are not compiler temporaries: reads of them are "
+                    "exempt (their numbering is taken from the model walk, tied to the real IR by the exact comparison)"],
     "level_text": "proof of the checker, per-output decision for the builder: checkCfg_sound — if the certificate check accepts a "
                   "function body then for EVERY path from the entry every jump target exists, control never reaches a block "
-                  "without terminator or the unreachable marker, and every local read is preceded by an assignment on that path. "
-                  "The check is run on the real IR of every generated accepted program (translation validation); the statement "
+                  "without terminator or the unreachable marker, and every local read is preceded by an assignment on that path; "
+                  "returns_value_on_every_path — a body accepted by checkFn as value-returning has no return without a value on any "
+                  "path. The check is run on the real IR of every generated accepted program AND on the function bodies re-read from "
+                  "the real header (translation validation at both ends); the statement "
                   "'every output of the builder passes the check, for all programs' (build_passes_check_full_statement) is not "
                   "proved.",
     "level_note": "trusted: Lean kernel; IR serialiser; partial: the ∀-programs theorem about the builder is missing — programs not "
